@@ -92,7 +92,7 @@ class CloudStorage(QueueStorage):
     def set_recipients_delivered(self, id, rcpt_indexes):
         meta = self.obj_store.get_message_meta(id)
         current = meta.get('delivered_indexes', [])
-        new = current + list(rcpt_indexes)
+        new = current + self._delivered_round(rcpt_indexes)
         self.obj_store.set_message_meta(id, delivered_indexes=new)
         log.update_meta(id, delivered_indexes=rcpt_indexes)
 
@@ -102,7 +102,7 @@ class CloudStorage(QueueStorage):
     def get(self, id):
         envelope, meta = self.obj_store.get_message(id)
         delivered_rcpts = meta.get('delivered_indexes', [])
-        self._remove_delivered_rcpts(envelope, delivered_rcpts)
+        self._replay_delivered_rcpts(envelope, delivered_rcpts)
         return envelope, meta.get('attempts', 0)
 
     def remove(self, id):
